@@ -128,6 +128,9 @@ SPECS["C11"] = ("""property C11: accepted deletions are permanent; deletion time
   ("C11_concrete_address_time_monotone",
    "forall s a t ops, naddr_is_deleted_asof s a = Some t -> exists t', naddr_is_deleted_asof (c_run ops s) a = Some t' /\\ t <= t'",
    "naddr_time_monotone", ""),
+  ("C11_concrete_covered_event_refused_forever",
+   "forall s a t ops e, naddr_is_deleted_asof s a = Some t -> addr_of e = Some a -> e_created e <= t ->\n    let s' := c_run ops s in\n    (snd (store_event s' e) = Err EDup \\/ snd (store_event s' e) = Err EDeleted) /\\ fst (store_event s' e) = s'",
+   "covered_event_refused_forever", "the CONCRETE store, any state and any continuation: once an address carries a deletion time t, every event of that address (replaceable: kind+author; parameterized: kind+author+d) created at or before t is refused as deleted (or duplicate) by every later store, and the refusal changes nothing"),
   ], """Example C11_example :
   let a := repeat 2 32 in
   let r1 := mkE (repeat 8 32) a (repeat 3 64) 5 500 [[[97]; [49;48;48;48;48;58] ++ write_hex a ++ [58]]] [] in
